@@ -277,6 +277,12 @@ func exprKind(n ast.Node) string {
 					kind = "lock"
 				case "Wait", "Signal", "Broadcast":
 					kind = "cond"
+				default:
+					// sync/atomic functions: a goroutine may be descheduled between two atomic
+					// operations (load, compute, store)
+					if x, ok := sel.X.(*ast.Ident); ok && x.Name == "atomic" && kind == "" {
+						kind = "atomic"
+					}
 				}
 			}
 		}
